@@ -612,7 +612,14 @@ class RelativeJSONPointer:
                 raise RelativeJSONPointerIndexError(
                     f"index offset out of range {new_index}"
                 )
-            parts[-1] = int(parts[-1]) + self.index
+            try:
+                str(new_index)
+            except ValueError as err:
+                # Too many digits to render as a reference token.
+                raise RelativeJSONPointerIndexError(
+                    "index offset out of range"
+                ) from err
+            parts[-1] = new_index
 
         # Pointer or index/property
         if isinstance(self.pointer, JSONPointer):
